@@ -1,5 +1,14 @@
 (* C06 over the language-chain pass models, continued: the PHP chain (SanitizeEnumMemberNames,
-   InlineObjectsWithTypes) and the last pass of the Java chain (RemoveIntersections). *)
+   InlineObjectsWithTypes) and the last pass of the Java chain (RemoveIntersections).
+   WHAT IS HERE
+   - senm_pres[_below]; php_core_invariants, php_chain_core_nf (PHP chain without its last pass);
+   - InlineObjectsWithTypes when it has nothing to inline: iowt_ref, iowt_ty_id, iowt_noop, tame_php, php_chain_nf
+     (the case where it inlines is in ChainPhpInlineNF.v);
+   - RemoveIntersections as two named loops (ri_loop1, ri_finish, ri_schema_eq, ri_go, remove_intersections_eq),
+     the states of the whole pass (ri_states), ri_safe, the invariant of the first loop (ri_good: an original object,
+     or an original alias rebuilt over the hints and fields of an original struct), remove_intersections_srel,
+     remove_intersections_keeps_nf, tame_java_full, java_chain_nf;
+   - non-vacuity and failing cases: java_chain_nf_nonvacuous, php_chain_nf_nonvacuous. *)
 From Coq Require Import List String Bool Ascii Lia.
 From Cog Require Import Model.IR Model.Names Model.Passes Model.PassesChain Model.Process Model.NF
      Proofs.TyInd Proofs.ChainLemmas Proofs.ChainNFProofs Proofs.ChainPresProofs Proofs.C06Proofs Gen.Chains_gen.
